@@ -222,11 +222,15 @@ func runSimProp(t *testing.T, p *simProp) {
 		hooks = p.Hooks()
 	}
 	hooks.StopOn = stopOn(p)
+	prof := p.Profile
+	if o := os.Getenv("VERIF_PATTERNS"); o != "" { // debugging aid: restrict the pattern mix
+		prof.Patterns = strings.Split(o, ",")
+	}
 	rapid.Check(t, func(rt *rapid.T) {
 		n++
 		dir := fmt.Sprintf("%s/c%d", base, n)
 		defer os.RemoveAll(dir)
-		res := sim.RunGenerated(t, rt, dir, p.Profile, hooks)
+		res := sim.RunGenerated(t, rt, dir, prof, hooks)
 		finishCase(rt, p, res, "")
 		if n%100 == 0 {
 			col.Flush()
